@@ -163,6 +163,20 @@ func genC15(seed uint64, idx int, tier string) *Scenario {
 				op.Join = pipelined && k < n-1
 				a.Ops = append(a.Ops, op)
 			}
+			if !pipelined && len(a.Ops) >= 2 && p.Fault == "" && r.Chance(0.25) {
+				// the segment that carries request k also carries the first bytes of request k+1 (a stray CR LF, or a
+				// client that writes ahead), and the client then waits for reply k before it sends the rest
+				k := r.Intn(len(a.Ops) - 1)
+				r1, r2 := a.Ops[k].Bytes(), a.Ops[k+1].Bytes()
+				cut := r.Range(1, len(r2)-1)
+				head := SendOp(append(append([]byte(nil), r1...), r2[:cut]...), nil, a.Ops[k].Note)
+				rest := SendOp(r2[cut:], nil, a.Ops[k+1].Note)
+				rest.Note = "after-reply:" + fmt.Sprint(k+1)
+				ops := append([]Op(nil), a.Ops[:k]...)
+				ops = append(ops, head, Op{K: "sleep", Ms: 2000}, rest)
+				ops = append(ops, a.Ops[k+2:]...)
+				a.Ops = ops
+			}
 			a.Ops = append(a.Ops, Op{K: "sleep", Ms: 3000}, Op{K: "close"})
 		case "dns-tcp":
 			// one query per connection (that is what the service serves), in one segment or cut in two
@@ -826,6 +840,27 @@ func c15CheckHTTP(sc *Scenario, obs *Obs, p *c15Params, be *c15Backend, faulty b
 				return
 			}
 			res.probe("requests-verified", 1)
+		}
+		// a client that waits for a reply before it goes on must have it by then: replies are not held back until
+		// more of the client's stream arrives
+		for oi, o := range a.Ops {
+			if o.K != "send" || !strings.HasPrefix(o.Note, "after-reply:") || faulty {
+				continue
+			}
+			var nwant int
+			fmt.Sscanf(strings.TrimPrefix(o.Note, "after-reply:"), "%d", &nwant)
+			var before []byte
+			for _, c := range obs.Conns[ai].Chunks {
+				if c.Step < obs.Conns[ai].OpStep[oi] {
+					before = append(before, c.Data...)
+				}
+			}
+			early, _ := parseResponses(before, methods)
+			if len(early) < nwant {
+				res.Violate("reply-held-back", site, fmt.Sprintf("client %d had sent %d complete requests (and the first bytes of the next) and waited two seconds: %d replies had arrived by then (%d bytes received)", ai, nwant, len(early), len(before)))
+				return
+			}
+			res.probe("client-waited-for-reply-mid-stream", 1)
 		}
 		gotResp, err := parseResponses(obs.Conns[ai].Recv, methods)
 		if faulty {
